@@ -173,8 +173,9 @@ def padded_fields(prog, chk, W12):
                                       locstr(raw), inst + ' has no setw of its own: 65 s is written "01:5" where the other '
                                       'writer of the same meta-data row writes "01:05"')
                     width_pending = False
-    if n < 4:
-        raise AnalysisBroken('W12: fewer than four numbers inserted into MM:SS streams found (%d)' % n)
+    if n < 2:
+        # two writers with two numbers each today; a shared formatting helper leaves one stream with two
+        raise AnalysisBroken('W12: no MM:SS stream with two numbers found (%d)' % n)
 
 
 def forest_encodings(prog, cg, eff, chk, W1, only=None, paths=True):
@@ -510,7 +511,7 @@ def run(tier='quick'):
     W12 = chk.rule('W12', 'the MM:SS duration string (MetaData type 10, derived from Track.length) is formed the same way by '
                           'every writer: each number inserted into the stream has its own setw / setfill before it (setw '
                           'holds for one insertion only, so a single one at the start pads the minutes and not the seconds)',
-                   floor=4)
+                   floor=2)
     padded_fields(prog, chk, W12)
     return chk.finish('statement sites of the 1.x crate operations with resolved binds (roles), field model of '
                       'the track path per schema range, parsed triggers of every 2.x DDL, value flow of add_track')
